@@ -12,21 +12,32 @@ PROPS = {}
 EXTRA = {
     "OR2": ["C01", "C09"],   # a truncated chain that is not terminated / freed correctly aliases other files' data
     "FT9": ["C01", "C09"],
-    "OR1": ["C01", "C09"],   # a "new" cluster that was not verified free belongs to another file
     "OR4": ["C03", "C01"],   # recorded length never runs ahead of the data/chain actually written
     "LS4": ["C04", "C07", "C02"],   # walker extent decides which blocks a create may write; lookup extent decides 'exists'
     "CD1": ["C09"],          # the flushed entry must encode the start cluster correctly
     "CD4": ["C09"],
     "SD9": ["C12"],          # framing of data packets decides which bytes are taken as the next block
     "SD10": ["C12"],
-    "FT5": ["C01", "C10"],   # a cluster handed out beyond the volume end puts an out-of-range cluster into a live chain
     "OR6": ["C11"],          # delete frees the chain only after the entry is gone: a failed delete never leaves a live entry on freed clusters
     "BM1": ["C02"],
     "MD9x": ["C09"],
     "EF1": ["C07", "C03"],
-    "SK2": ["C03"],          # extending a chain from a stale cursor overwrites the link of an earlier cluster: chain shorter than the size
-    "OR5": ["C06"],          # stale bytes in a partly initialised directory cluster are listed / found as entries
-    "SD2": ["C12"],          # a frame without a valid CRC-7 is rejected by cards that check it (CMD0/CMD8 always do)   # create only when the name is definitively absent (no error masquerading as NotFound): unique names
+    "SD2": ["C12"],
+    # --- round 4: a rule that already explains the breakage also answers for the property the change was written against
+    "FT11": ["C01", "C02", "C04"],   # a cluster number beyond the volume: data lands behind the partition / in the next volume
+    "FT5": ["C01", "C10", "C02"],
+    "OR1": ["C01", "C09", "C02", "C05"],   # a "new" cluster not verified free is somebody else's data
+    "OR5": ["C06", "C04", "C09"],    # the blanked extent of a new directory cluster is exactly that cluster (not one block more)
+    "SK2": ["C03", "C05"],           # extension from a stale cursor orphans the tail of the chain (leaked clusters)
+    "IS4": ["C05"],                  # a stale FSInfo count must not make the volume refuse allocations while the FAT has free clusters
+    "NE1": ["C09"],                  # a wrong recorded entry position makes the next flush overwrite another file's entry
+    "SD1": ["C13"],                  # response masks / tokens decide what counts as "accepted"
+    "FA1": ["C03"],                  # a start cluster cut to 16 bits frees / cross-links somebody else's chain
+    "LS3": ["C07"],                  # lookup must see every live entry: 'exists' decides create / FileAlreadyExists / NotFound
+    "RL1": ["C11"],                  # a failed call must not leave an unclosable handle behind (API wedged)
+    "SD17": ["C12"],                 # stray bytes on MOSI during a multi-block read can be a STOP_TRANSMISSION frame
+    "FT2": ["C10"],                  # a mirror write at the wrong block overwrites the root directory / data
+    "FT12": ["C10"],          # a frame without a valid CRC-7 is rejected by cards that check it (CMD0/CMD8 always do)   # create only when the name is definitively absent (no error masquerading as NotFound): unique names
 }
 for _r, _ps in EXTRA.items():
     if _r in RULES:
